@@ -300,3 +300,13 @@ func min(a, b int) int {
 	}
 	return b
 }
+
+// detectAtNoSet runs Detect without touching the global limit.
+func detectAtNoSet(x []byte) (m *mimetype.MIME, panicked any) {
+	defer func() {
+		if e := recover(); e != nil {
+			panicked = e
+		}
+	}()
+	return mimetype.Detect(x), nil
+}
